@@ -23,25 +23,32 @@ type C14Scale struct{}
 
 func (e *C14Scale) Name() string { return "sim.c14-scale" }
 func (e *C14Scale) Rule() string {
-	return "first deployment on {40, 64, 65, 101, 130, 257} nodes in both node-assignment modes, brought to rest, then rolling-update-paused; desired/current/ready/available/upToDate of the ExtendedDaemonSet and desired/current/ready/available of the active replica set must equal the number of nodes, all of which carry one Ready pod of the template, and three further rounds must create and delete nothing; non-trivial = distinct (node count, mode)"
+	return "first deployment on {40, 64, 65, 101, 130, 257} nodes, and on 6 nodes half of which carry a resources override for a container the template lacks, in both node-assignment modes, brought to rest, then rolling-update-paused; desired/current/ready/available/upToDate of the ExtendedDaemonSet and desired/current/ready/available of the active replica set must equal the number of nodes, all of which carry one Ready pod of the template, and three further rounds must create and delete nothing; non-trivial = distinct (node count, mode)"
 }
 func (e *C14Scale) Cases(tier string, _ int64) int {
 	if tier == "thorough" {
-		return 48
+		return 56
 	}
-	return 12
+	return 14
 }
 func (e *C14Scale) Floors(string) map[string]int {
 	return map[string]int{"C14.scale-fixpoints-judged": 10}
 }
 
 func (e *C14Scale) Run(ctx *core.Ctx, idx int) {
-	n := []int{40, 64, 65, 101, 130, 257}[idx%6]
-	aff := (idx/6)%2 == 0
+	sizes := []int{40, 64, 65, 101, 130, 257, 6}
+	n := sizes[idx%len(sizes)]
+	aff := (idx/len(sizes))%2 == 0
+	staleOverride := n == 6
 	w := NewWorld(ctx, kit.CtlOpts{Affinity: aff})
 	w.MaxTrace = 200
 	for i := 0; i < n; i++ {
-		w.AddNode(kit.Node(fmt.Sprintf("n%03d", i), map[string]string{"zone": []string{"a", "b", "c"}[i%3]}))
+		nd := kit.Node(fmt.Sprintf("n%03d", i), map[string]string{"zone": []string{"a", "b", "c"}[i%3]})
+		if staleOverride && i%2 == 0 {
+			// a resources override left on the node for a container the template does not (or no longer) have
+			nd.Annotations = map[string]string{fmt.Sprintf(v1.ExtendedDaemonSetRessourceNodeAnnotationKey, "ns1", "foo", "sidecar"): `{"requests":{"cpu":"1"}}`}
+		}
+		w.AddNode(nd)
 	}
 	ed := &v1.ExtendedDaemonSet{ObjectMeta: metav1.ObjectMeta{Namespace: "ns1", Name: "foo"}}
 	ed.Spec.Template = kit.Tpl("A")
